@@ -19,7 +19,7 @@ W2 input-driven recursion is bounded.
 import re
 from ..linrel import Lin, GE, LE, GT, LT, entails, infeasible
 from ..symrange import SymRange, INT_MAX
-from ..cfg import Facts, kids, strip, walk, cv, render, short_loc, call_args, TRANSPARENT
+from ..cfg import expand_locals as _expand, Facts, kids, strip, walk, cv, render, short_loc, call_args, TRANSPARENT
 from ..facts import export_many, AnalysisBroken
 from .. import units
 
@@ -144,7 +144,7 @@ def run(rep, ctx):
           r"mp::internal::VarBoundHandler::.*", r"mp::BasicProblem::(GetSuffixSize|SetInfo)"]
     jobs = [dict(unit="src/problem.cc", fn=fn, repo=repo,
                  rec=[r"mp::NLHeader", r"NLProblemInfo_C", r"NLInfo_C"]),
-            dict(unit="src/nl-reader.cc", fn=fn, repo=repo)]
+            dict(unit="src/nl-reader.cc", fn=fn, repo=repo, closure=1, closure_roots=r"TextReader::ReadHeader$")]
     if ctx["tier"] == "thorough":
         for u in ("test/nl-reader-test.cc", "examples/nl-reader-example.cc",
                   "solvers/visitor/model-mgr-with-std-pb.cc", "test/problem-test.cc"):
@@ -821,6 +821,14 @@ def nul_outcome_safe(F, g, c, is_noreturn, depth=0):
                 and any(cv(x) is not None for x in kids(n))]
         cmps = [n for n in cmps if any(b.get("cond") is not None and strip(g.nodes.get(b["cond"]))["i"] == n["i"]
                                        for b in g.cfg.blocks.values())]
+        written_ = any((n["k"] in ("BinaryOperator", "CompoundAssignOperator") and n.get("op", "").endswith("=") and n.get("op") not in ("==", "!=", "<=", ">=") and
+                        strip(kids(n)[0]).get("declId") == var) or
+                       (n["k"] == "UnaryOperator" and n.get("op") in ("++", "--", "&") and strip(kids(n)[0]).get("declId") == var) for n in g.walk())
+        if len(cmps) > 1 and not written_ and c["i"] in g.cfg.pos:
+            # an if chain over the character: with the NUL value every comparison of the variable is decided
+            hit_, tests_ = decided_reach(g, var, nulval, reads, g.cfg.pos[c["i"]])
+            return (not hit_, "with the NUL value %d comparison(s) of `%s` are decided and %s" %
+                    (tests_, par.get("name"), "no read is reachable" if not hit_ else "a read is still reachable"))
         if cmps:
             first = [n for n in cmps if all(g.cfg.dominates(n, o) for o in cmps)]
             n = (first or cmps)[0]
@@ -877,26 +885,9 @@ def nul_outcome_safe(F, g, c, is_noreturn, depth=0):
             written = any((n["k"] in ("BinaryOperator", "CompoundAssignOperator") and n.get("op", "").endswith("=") and n.get("op") not in ("==", "!=", "<=", ">=") and
                            strip(kids(n)[0]).get("declId") == pid) or
                           (n["k"] == "UnaryOperator" and n.get("op") in ("++", "--", "&") and strip(kids(n)[0]).get("declId") == pid) for n in h.walk())
-            tests = 0
+            tests, hit_ = 0, []
             if not written:
-                seen_, todo_ = set(), [h.cfg.entry]
-                while todo_:
-                    b_ = todo_.pop()
-                    if b_ is None or b_ in seen_:
-                        continue
-                    seen_.add(b_)
-                    blk_ = h.cfg.blocks[b_]
-                    ss_ = h.cfg.succ[b_]
-                    cn_ = strip(h.nodes.get(blk_["cond"])) if blk_.get("cond") is not None else None
-                    dec_ = None
-                    if cn_ is not None and cn_["k"] == "BinaryOperator" and cn_.get("op") in ("==", "!=") and len(ss_) == 2:
-                        a_, b2_ = strip(kids(cn_)[0]), strip(kids(cn_)[1])
-                        k_ = cv(b2_) if a_.get("declId") == pid else (cv(a_) if b2_.get("declId") == pid else None)
-                        if k_ is not None:
-                            dec_ = (nulval == k_) if cn_["op"] == "==" else (nulval != k_)
-                            tests += 1
-                    todo_ += [ss_[0] if dec_ else ss_[1]] if dec_ is not None else list(ss_)
-                hit_ = [r_ for r_ in reads2 if r_ in h.cfg.pos and h.cfg.pos[r_][0] in seen_]
+                hit_, tests = decided_reach(h, pid, nulval, reads2)
                 if tests:
                     return (not hit_, "passed to %s: with the NUL value %d comparison(s) of the parameter are decided and %s" %
                             (h.name, tests, "no read is reachable" if not hit_ else "a read is still reachable"))
@@ -920,6 +911,37 @@ def callee_sends_nul_to_error(F, g, call, var, nulval, is_noreturn):
         [n["i"] for n in h.walk() if n["k"] == "CXXMemberCallExpr" and n.get("calleeRec") == h.rec
          and n.get("callee", "").split("::")[-1].startswith(("Read", "DoRead"))]
     return bool(sw) and switch_nul(h, sw[0], nulval, reads2)[0]
+
+
+def decided_reach(h, pid, nulval, reads, start=None):
+    """reads reachable when every `variable ==/!= constant` branch on declaration pid is decided by the value nulval (other
+    branches are followed both ways); start: (block, element index) after which reading counts, default the entry.
+    Returns (reachable reads, number of decided tests)."""
+    tests = 0
+    seen_, todo_ = set(), [start[0] if start else h.cfg.entry]
+    while todo_:
+        b_ = todo_.pop()
+        if b_ is None or b_ in seen_:
+            continue
+        seen_.add(b_)
+        blk_ = h.cfg.blocks[b_]
+        ss_ = h.cfg.succ[b_]
+        cn_ = strip(h.nodes.get(blk_["cond"])) if blk_.get("cond") is not None else None
+        dec_ = None
+        if cn_ is not None and cn_["k"] == "BinaryOperator" and cn_.get("op") in ("==", "!=") and len(ss_) == 2:
+            a_, b2_ = strip(kids(cn_)[0]), strip(kids(cn_)[1])
+            k_ = cv(b2_) if a_.get("declId") == pid else (cv(a_) if b2_.get("declId") == pid else None)
+            if k_ is not None:
+                dec_ = (nulval == k_) if cn_["op"] == "==" else (nulval != k_)
+                tests += 1
+        todo_ += [ss_[0] if dec_ else ss_[1]] if dec_ is not None else list(ss_)
+    hit_ = []
+    for r_ in reads:
+        if r_ in h.cfg.pos and h.cfg.pos[r_][0] in seen_:
+            if start and h.cfg.pos[r_][0] == start[0] and h.cfg.pos[r_][1] <= start[1]:
+                continue
+            hit_.append(r_)
+    return hit_, tests
 
 
 def _switch_on(g, sw, decl):
@@ -1066,7 +1088,7 @@ def conversion_rules(rep, F, funcs, is_noreturn):
                 f.cfg.cut_noreturn(lambda x: x["k"] in ("CXXMemberCallExpr", "CallExpr") and is_noreturn(x))
                 lo = hi = False
                 for cid, pol in f.cfg.facts_at(n):
-                    c = strip(f.nodes[cid])
+                    c = strip(_expand(f, f.nodes[cid]))       # a range test written as a one-line predicate is looked into
                     lo2, hi2 = range_check_of(c, pol, src)
                     lo, hi = lo or lo2, hi or hi2
                 u1.check(lo and hi, key, short_loc(n.get("l")),
